@@ -11,6 +11,7 @@ REGISTRY = {
     "C10": "core",
     "C12": "c12",
     "C13": "core",
+    "C14": "c14",
     "C16": "c16",
     "C20": "core",
     "C11": "core",
